@@ -457,18 +457,15 @@ func convertStringToTv(schemaType *sdcpb.SchemaLeafType, v string, ts uint64) (*
 			Value:     &sdcpb.TypedValue_BoolVal{BoolVal: b},
 		}, nil
 	case "decimal64":
-		arr := strings.SplitN(v, ".", 2)
-		digits, err := strconv.ParseInt(arr[0], 10, 64)
+		d64, err := ParseDecimal64(v)
 		if err != nil {
 			return nil, err
 		}
-		precision64, err := strconv.ParseUint(arr[1], 10, 32)
-		if err != nil {
-			return nil, err
+		if d64 == nil {
+			return nil, fmt.Errorf("invalid decimal64 value %q", v)
 		}
-		precision := uint32(precision64)
 		return &sdcpb.TypedValue{
-			Value: &sdcpb.TypedValue_DecimalVal{DecimalVal: &sdcpb.Decimal64{Digits: digits, Precision: precision}},
+			Value: &sdcpb.TypedValue_DecimalVal{DecimalVal: d64},
 		}, nil
 	case "identityref":
 		before, name, found := strings.Cut(v, ":")
